@@ -217,6 +217,25 @@ def check_dot(spec, data, schema_names, kind):
             bad.append(("pipeline2dot:remainder-columns",
                         "the passthrough remainder is not fed by the unselected input columns (%s)" % tag,
                         ["%s:%s" % a for a in got_src], ["%s:%s" % a for a in want_src]))
+    # same reading for the transformers of a top-level ColumnTransformer given NAMED columns: a leaf transformer whose
+    # class appears once in the graph is fed by exactly the input ports of the columns it is given
+    if spec["t"] == "cols" and kind in ("df", "list") and first is not None:
+        port_of = {lab: prt for prt, lab in first["ports"]}
+        for sub, cols in spec["items"]:
+            if sub.get("t") != "est" or not cols or not all(isinstance(c, str) for c in cols):
+                continue
+            ids = [b for b in box_ids if g["nodes"][b]["label"] == sub["cls"]]
+            if len(ids) != 1 or any(c not in port_of for c in cols):
+                continue
+            # the input ports from which the step can be reached (columns may pass through an intermediate record)
+            got_src = sorted((g["order"][0], prt) for prt, _ in first["ports"]
+                             if (ids[0], None) in D.reachable_from(g, [(g["order"][0], prt)]))
+            want_src = sorted((g["order"][0], port_of[c]) for c in cols)
+            if got_src != want_src:
+                bad.append(("pipeline2dot:transformer-not-fed-by-its-columns",
+                            "a transformer of the ColumnTransformer is not reached from exactly the input columns it is given (%s)" % tag,
+                            ["%s:%s" % a for a in got_src], ["%s:%s" % a for a in want_src]))
+                break
     return bad, text
 
 
